@@ -67,6 +67,7 @@ void sym_inputs(void)
 #endif
 }
 
+static int hup_seen;
 static unsigned int tp;
 static unsigned char draw(void) { return tp < TAPE ? tape[tp++] : 0; }
 
@@ -259,6 +260,14 @@ int vf_select(int nfds, fd_set *rfds, fd_set *wfds, fd_set *efds, struct timeval
   sel_trigger = (cur_rfd >= 0 && cur_rfd < nfds && FD_ISSET(cur_rfd, rfds));
 #if MODE == 0
   CHECK(tv != 0 && tv->tv_sec >= 0, "select always has a timeout");
+  if (nselect <= K && sig_in_select[nselect] & 1) {
+    /* a HUP arrives while the daemon is in select(): the real handler runs, select() fails with EINTR, the sets are not
+     * to be looked at.  Injectors go on meanwhile (env_step above and in every later call). */
+    sighup();
+    hup_seen = 1;
+    errno = EINTR;
+    return -1;
+  }
   readable = sel_trigger && data;
   if (!readable && tv->tv_sec > 0) {
     /* the daemon goes to sleep.  Injectors that already published finish their steps
@@ -270,7 +279,7 @@ int vf_select(int nfds, fd_set *rfds, fd_set *wfds, fd_set *efds, struct timeval
     for (i = 0; i < NINJ; ++i)
       CHECK(!(linked[i] && !seen[i]) || readable,
             "C16: LOST WAKE-UP - a published todo entry is neither seen by the scan nor signalled on the descriptor the daemon sleeps on");
-    if (!readable) { WITNESS("sleeps_with_nothing_to_do"); PATH_END(); }
+    if (!readable) { WITNESS("sleeps_with_nothing_to_do"); if (hup_seen) WITNESS("sleeps_after_hup"); PATH_END(); }
     woke_after_block = 1;
   }
   FD_ZERO(rfds);
@@ -350,7 +359,16 @@ void pqrun(void)
 }
 void pqfinish(void) {}
 #else
-void pqrun(void) {} void reread(void) {} void pqfinish(void) {}
+void pqrun(void) {} void pqfinish(void) {}
+#if MODE == 0
+/* MODE 0 runs the REAL reread() (what the daemon does on HUP) with only regetcontrols() cut: re-reading the control files
+ * must not disturb the trigger - whatever else a HUP makes the daemon do, a pull that is pending stays pending or is followed
+ * by a scan */
+void regetcontrols(void) {}
+unsigned int vf_sleep(unsigned int s) { return 0; }
+#else
+void reread(void) {}
+#endif
 #endif
 int del_canexit(void) { return 0; }   /* a delivery is outstanding: TERM does not end the loop (shutdown drain) */
 /* qsutil.c */
